@@ -144,6 +144,10 @@ def stress_run(arg):
     bld, kind, nt, ncalls, fmt, out, seed, root, idx = arg[:9]
     chain = arg[9] if len(arg) > 9 else None
     opts = arg[10] if len(arg) > 10 else {}          # nullargv / canary / stack / socket_full / extra config lines
+    if os.path.exists(os.path.join(root, "THREADS-STUCK")):
+        # an earlier run of this sweep already ended with every thread parked in a lock wait: the verdict is in, the remaining
+        # runs would each sit out their watchdog for nothing (a check has to terminate on a broken tree too)
+        return Findings(PROP), dict(stress_runs=0, stress_calls=0, tsan_reports=0, concurrent_runs=0, stress_skipped_after_stuck=1)
     work = os.path.join(root, "s%s%04d" % (kind, idx))
     os.makedirs(work, exist_ok=True)
     logp = os.path.join(work, "log")
@@ -200,7 +204,7 @@ def stress_run(arg):
     pr = subprocess.Popen([exe, "--mount", "%s:%s" % (conf, SYSCONF), "--threads", str(nt), "--calls", str(ncalls), "--seed", str(seed), "--out", os.path.join(work, "issued")] + xargs,
                           env=env, stdout=subprocess.PIPE, stderr=subprocess.PIPE, cwd=work)
     try:
-        so, se = pr.communicate(timeout=opts.get("timeout", 1800))
+        so, se = pr.communicate(timeout=opts.get("timeout", 150))
         r = subprocess.CompletedProcess(pr.args, pr.returncode, so, se)
     except subprocess.TimeoutExpired:        # (the process is still there: look at it before it is killed)
         # are the threads all parked in a lock wait (one of them left the library with its mutex held), or is the run just slow?
@@ -220,8 +224,11 @@ def stress_run(arg):
             except OSError:
                 continue
         pr.kill()
-        pr.communicate()
-        kill_stragglers(work)
+        kill_stragglers(work)           # (the threads may live in a child of that process - --ancestor - which holds the pipes)
+        try:
+            pr.communicate(timeout=10)
+        except subprocess.TimeoutExpired:
+            pass
         F = Findings(PROP)
         wit = dict(kind=kind, threads=nt, calls=ncalls, format=fmt, output=out, seed=seed, filter_chain=chain, options=opts, task_syscalls=states[:40])
         if dsock is not None:
@@ -229,6 +236,7 @@ def stress_run(arg):
             th_.join()
             dsock.close()
         if states and all(x in ("202", "61", "247") for x in states):
+            open(os.path.join(root, "THREADS-STUCK"), "w").close()
             F.violation("C09:stress:threads-stuck", "%d threads making exec calls never finished: every thread of the process sits in a lock wait (format %s, output %s)" % (nt, fmt[:60], out), wit)
             return F, dict(stress_runs=1, stress_calls=0, tsan_reports=0, concurrent_runs=0)
         raise Harness("threads driver timed out without being parked in lock waits: %s" % states[:20])
@@ -435,7 +443,7 @@ def main():
     rmwork(root)
     if (tot.get("dfs.distinct_schedules", 0) < 2 or tot.get("stress.stress_runs", 0) == 0 or nts_ok == 0) and F.n_unlisted() == 0:
         raise Harness("observed too little: %s" % tot)
-    if (tot.get("stress.concurrent_runs", 0) < tot.get("stress.stress_runs", 0) * 0.9) and F.n_unlisted() == 0:
+    if (tot.get("stress.concurrent_runs", 0) < tot.get("stress.stress_runs", 0) * 0.9) and F.n_unlisted() == 0 and not tot.get("stress.stress_skipped_after_stuck"):
         raise Harness("most stress runs never had two calls in flight at once: %s" % tot)
     if (tot.get("dfs.inconclusive", 0) > tot["dfs.schedules"] // 100) and F.n_unlisted() == 0:
         raise Harness("too many schedules hit the wall-clock watchdog: %s" % tot)
